@@ -537,6 +537,8 @@ func tryReplay(env *Env, r *run.Result, rf *ReplayFile) bool {
 			src = orderLawTest(pkgName, o, c)
 		case "chain":
 			src = chainTest(o, c)
+		case "merge":
+			src = mergeTest(pkgName, o, c)
 		default:
 			continue
 		}
